@@ -206,3 +206,11 @@ for _f in FAMS:
         for _l in (False, True):
             for _v in (None, 'soft'):
                 _mk_roundtrip(_f, _w, _l, _v)
+
+
+# polymorphic setting (shared with C16): subclass instances where the base, a customised variant of it, or Array(base) is
+# declared -- the response names the runtime class and carries all of its fields, and decodes back to an equal value
+from .c16_polymorphism import _mk_dict as _mk_polymorphic     # noqa: E402
+
+for _f in FAMS:
+    _mk_polymorphic(_f, oid='C02.polymorphic.%s' % _f)
